@@ -110,11 +110,18 @@ def old_cases(rng, tier):
                         if tier == "quick" and rng.random() < 0.55:
                             continue
                         r0 = rng.choice(sorted({0, max(rows - ph, 0), rows - 1, max(rows - ph - 1, 0)}))
-                        out.append(dict(api="old", style=style, ident=ident, frames=frames, rw=rw, rh=rh,
-                                        h_align=ha, pad_width=padw, v_align=va, pad_height=padh,
-                                        repeat=repeat, cached=cached, cols=cols, rows=rows,
-                                        tty=rng.random() < 0.7, r0=r0, method=method,
-                                        cell=None if style == "block" else [2, 4]))
+                        case = dict(api="old", style=style, ident=ident, frames=frames, rw=rw, rh=rh,
+                                    h_align=ha, pad_width=padw, v_align=va, pad_height=padh,
+                                    repeat=repeat, cached=cached, cols=cols, rows=rows,
+                                    tty=rng.random() < 0.7, r0=r0, method=method,
+                                    cell=None if style == "block" else [2, 4])
+                        if style == "kitty" and rng.random() < 0.4:
+                            # style-specific draw() arguments of the caller: whatever z-index /
+                            # compression is asked for, animation frames must still replace
+                            # each other (the per-frame clearing addresses the frames' z-index)
+                            case["style_args"] = rng.choice([{"z_index": 5}, {"z_index": -7},
+                                                             {"z_index": 5, "compress": 0}])
+                        out.append(case)
     return out
 
 
